@@ -5,7 +5,7 @@ PROP = {
     "prop_file": "Properties/C13.v",
     "model_files": ["DocSet/Spec.v", "DocSet/Impl.v", "DocSet/Program.v", "DocSet/Exclude.v", "DocSet/ReqOpt.v", "DocSet/Sum.v",
                     "DocSet/Intersect.v", "DocSet/IntersectProofs.v", "DocSet/IntersectAdvanceProofs.v", "DocSet/Union.v", "DocSet/UnionBits.v",
-                    "DocSet/UnionProofs.v", "DocSet/UnionWitness.v", "DocSet/Disjunction.v", "DocSet/DisjunctionProofs.v", "DocSet/Cases.v", "DocSet/SimpleUnion.v", "DocSet/Phrase.v"],
+                    "DocSet/UnionProofs.v", "DocSet/UnionWitness.v", "DocSet/Disjunction.v", "DocSet/DisjunctionProofs.v", "DocSet/Cases.v", "DocSet/SimpleUnion.v", "DocSet/Phrase.v", "DocSet/Probe.v"],
     "level": "proof",
     "engine": "E3-docset",
     "level_text": "Proof: a DocSet implementation is a record of the trait's methods; the contract Repr(state, remaining sorted list), with dangling states and a relational seek_danger "
@@ -26,6 +26,8 @@ PROP = {
                   "SimpleUnion and PhraseScorer are not publicly constructible, so their models are not tied case by case: RegexPhraseQuery / PhraseQuery scorers are checked on the spec layer; "
                   "scores are not modelled: score path-independence is decided on the implementation side (bit-exact for single clauses and power-of-two leaf scores, relative 1e-5 for f32 sums), "
                   "after every positioning call, along an advance walk to the end after every program, after `fresh scorer; seek(member)` for the members, and -- for conjunctions -- against the sum of the clauses' standalone scores. "
+                  "seek_danger with a target below the child's document is part of the contract (clause c_danger_below), not a caller-side precondition: Exclude::contains and the union's out-of-horizon loop ask it "
+                  "(witnesses C13_exclude_asks_below_doc / C13_union_asks_children_below_doc), and the phrase scorer's code meets it (C13_phrase_seek_danger_below); F135: its debug_assert contradicts this (debug builds only). "
                   "F131-F134 are fixed in /repo (C13_union_in_union_refuted / C13_union_over_dangling_child_refuted are witnesses about the old shapes); no known finding remains for this property.",
     "level_note": "Trusted: Coq kernel + vm_compute; pin.py; the harness (leaf DocSet driven by the trait defaults, BooleanQuery trees over leaf queries, programs generated on line "
                   "against the real scorer). SIMD in-block search of postings, fast-field range and phrase scorers are exercised on the spec layer only (not modelled). "
